@@ -260,3 +260,78 @@ Proof.
       unfold Qcle; vm_compute; discriminate. }
   intros c Hc. assert (c = 0) by lia. subst. apply Qc_is_canon. vm_compute. reflexivity.
 Qed.
+
+(* ---------------- Y Y^T = B exactly when B = Z Z^T has rank <= d ---------------- *)
+Theorem gram_recovered_Qc n r d (Z V B : mat Qc) (lam s : vec Qc) :
+  r <= d -> d <= n ->
+  (forall i i', i < n -> i' < n -> B i i' = sumn r (fun j => (Z i j * Z i' j)%F)) ->
+  full_contract n B V lam ->
+  meq n n (mmul n V (mtrans V)) mI ->
+  ascending n lam ->
+  (forall c, c < d -> (s c * s c)%Qc = qmax0 (lam (n - d + c)%nat)) ->
+  let Y := scale_cols (select_cols n V (n - d, d)) s in
+  forall a b, a < n -> b < n -> mmul d Y (mtrans Y) a b = B a b.
+Proof.
+  intros Hrd Hdn HB HC HVVt Hasc Hs Y a b Ha Hb.
+  destruct HC as [HVtV HE].
+  destruct (gram_small_eigenvalues_vanish n r Z V B lam HB HVtV HE Hasc) as [Hpos Hzero].
+  assert (Hs' : forall c, c < d -> (s c * s c)%F = lam (n - d + c)%nat).
+  { intros c Hc. cbn [fmul QcOps]. rewrite (Hs c Hc). apply qmax0_nonneg. apply Hpos. lia. }
+  destruct (@mds_factor_partial Qc QcOps QcField n d B V lam s Hdn (conj HVtV HE) Hs') as [_ Hg].
+  fold Y in Hg. rewrite Hg.
+  rewrite (@Mds_Proof.spectral_form Qc QcOps QcField n B V lam (conj HVtV HE) HVVt a b Ha Hb).
+  set (f := fun t => (V a t * lam t * V b t)%F).
+  replace (sumn n f) with (sumn ((n - d) + d) f) by (f_equal; lia).
+  rewrite (@sumn_split Qc QcOps QcField).
+  rewrite (@sumn_zero' Qc QcOps QcField (n - d)).
+  2:{ intros t Ht. unfold f. rewrite (Hzero t) by lia. cbn [fmul fzero QcOps]. ring. }
+  unfold f. cbn [fadd fzero QcOps]. ring.
+Qed.
+
+(* Kernel PCA with the linear kernel k(x,y) = <x,y> on points with r <= d coordinates:
+   the embedding reproduces every pairwise Euclidean distance *)
+Theorem kpca_linear_recovers_euclidean_Qc N r d (X V : mat Qc) (Lam s : vec Qc) (kern : mat Qc) :
+  N <> 0 -> r <= d -> d <= N ->
+  (forall i j, i < N -> j < N -> i <= j -> kern i j = dot r (mrow X i) (mrow X j)) ->
+  full_contract N (kpca_matrix N kern) V Lam ->
+  meq N N (mmul N V (mtrans V)) mI ->
+  ascending N Lam ->
+  (forall c, c < d -> (s c * s c)%Qc = qmax0 (Lam (N - d + c)%nat)) ->
+  let Y := scale_cols (select_cols N V (N - d, d)) s in
+  forall i j, i < N -> j < N -> sqdist d Y i j = sqdist r X i j.
+Proof.
+  intros HN Hrd HdN Hk HC HVVt Hasc Hs Y i j Hi Hj.
+  assert (HB : forall a b, a < N -> b < N ->
+             kpca_matrix N kern a b = sumn r (fun t => (centered N X a t * centered N X b t)%F)).
+  { intros a b Ha Hb.
+    rewrite (@kpca_matrix_is_JKJ Qc QcOps QcField N kern (Qc_of_nat_neq0 N HN) a b Ha Hb).
+    assert (HK : meq N N (kernel_matrix kern) (mmul r X (mtrans X))).
+    { intros p q Hp Hq. unfold kernel_matrix, mmul, mtrans.
+      destruct (Nat.leb p q) eqn:E.
+      - apply Nat.leb_le in E. rewrite (Hk p q Hp Hq E). reflexivity.
+      - apply Nat.leb_gt in E. rewrite (Hk q p Hq Hp) by lia. unfold dot, mrow.
+        apply (@sumn_ext Qc QcOps). intros t _. cbn [fmul QcOps]. ring. }
+    rewrite (@double_center_meq Qc QcOps N _ _ HK a b Ha Hb).
+    exact (@double_center_gram Qc QcOps QcField N r X a b (Qc_of_nat_neq0 N HN) Ha Hb). }
+  pose proof (gram_recovered_Qc N r d (centered N X) V (kpca_matrix N kern) Lam s Hrd HdN HB HC HVVt Hasc Hs)
+    as HG. fold Y in HG.
+  rewrite (@sqdist_from_gram Qc QcOps QcField d Y i j). rewrite !HG by assumption.
+  rewrite !HB by assumption.
+  unfold sqdist, centered.
+  rewrite <- (@sumn_add Qc QcOps QcField), <- !(@sumn_sub Qc QcOps QcField).
+  apply (@sumn_ext Qc QcOps). intros t _. cbn [fmul fsub fadd QcOps]. ring.
+Qed.
+
+Definition exr_kern : mat Qc :=
+  mof [[qz 1; qz (-1); qz 1; qz (-1)]; [qz (-1); qz 1; qz (-1); qz 1];
+       [qz 1; qz (-1); qz 1; qz (-1)]; [qz (-1); qz 1; qz (-1); qz 1]].
+Lemma exr_kpca_ok :
+  (forall i j, i < 4 -> j < 4 -> i <= j -> exr_kern i j = dot 1 (mrow exr_X i) (mrow exr_X j)) /\
+  full_contract 4 (kpca_matrix 4 exr_kern) exr_V exr_Lam.
+Proof.
+  split.
+  - intros i j Hi Hj _.
+    destruct i as [|[|[|[|i]]]]; try lia; destruct j as [|[|[|[|j]]]]; try lia;
+      apply Qc_is_canon; vm_compute; reflexivity.
+  - split; apply meq_by_compute; vm_compute; reflexivity.
+Qed.
